@@ -14,5 +14,5 @@ INIT Init
 NEXT Next
 VIEW view
 INVARIANTS TypeOK IterSorted IterPositionsConsistent
-PROPERTIES DurabilityEventsAreNoOps SnapshotIsolation StoreChangesOnlyByWrites IterSeekIsLowerBound IterStepsAreAdjacent
+PROPERTIES DurabilityEventsAreNoOps SnapshotIsolation StoreChangesOnlyByWrites IterSeekIsLowerBound IterStepsAreAdjacent IterPrevIsAdjacent HasAgreesWithGet SnapshotReadsFrozen
 CHECK_DEADLOCK FALSE
